@@ -941,6 +941,9 @@ const DIALECT_SENSITIVE: &[&str] = &[
     "from t | select {r = (a / b | math.round 2), c = (s | text.contains 'x'), d = a // b}",
     "from events | select {`time`, `tag`, `percent`, `user`, `top`, `snapshot`} | filter `system` > 1 | sort {`timestamp`}",
     "from employees | derive {salary * 2} | take 10 | filter (name ~= \"x\")",
+    "from s\"SELECT a, b FROM t\" | filter a > 1 | select {b, a}",
+    "let r0 = s\"SELECT k, v0 FROM s0\"\nlet r1 = s\"SELECT k, v1 FROM s1\"\nfrom a0 = r0\njoin a1 = r1 (a0.k == a1.k)\nselect {a0.k, a0.v0, a1.v1}",
+    "from s\"SELECT k, v2 FROM s2\" | join x = s\"SELECT k, w FROM s3 WHERE w > 0\" (==k) | take 5",
     "from t | derive {x = s\"COALESCE({a}, {b\", y = c} | take 3",
     "from t | select {f = f\"{a}-{}-{b}\", g = s\"LOWER({c})\"} | sort f",
     "from t | derive {a + 1, s\"NOW()\"} | take 5 | derive {d = (b | date.to_text \"%Q\")} | filter a > 1",
@@ -1185,6 +1188,7 @@ impl<'a> Gen<'a> {
             heap_perturb: 0,
             alloc_yield_mean: 0,
             clock_step_ns: 0,
+            block_yield_mean: 0,
         }
     }
 
@@ -1266,6 +1270,7 @@ impl<'a> Gen<'a> {
             heap_perturb: 0,
             alloc_yield_mean: 0,
             clock_step_ns: 0,
+            block_yield_mean: 0,
         }
     }
 
@@ -1324,6 +1329,7 @@ impl<'a> Gen<'a> {
             heap_perturb: 0,
             alloc_yield_mean: 0,
             clock_step_ns: 0,
+            block_yield_mean: 0,
         }
     }
 
@@ -1429,6 +1435,7 @@ impl<'a> Gen<'a> {
             heap_perturb,
             alloc_yield_mean: 0,
             clock_step_ns: *r.pick(&[0u64, 0, 0, 1_000_000, 1_000_000_000, 50_000_000_000]),
+            block_yield_mean: 0,
         }
     }
 
@@ -1512,6 +1519,8 @@ impl<'a> Gen<'a> {
             // allocation-point preemption (threads engine): off, coarse, fine
             alloc_yield_mean: *r.pick(&[0u32, 0, 0, 30_000, 4_000, 500]),
             clock_step_ns: *r.pick(&[0u64, 0, 0, 1_000_000, 1_000_000_000, 50_000_000_000]),
+            // block-level preemption (threads engine): off, coarse, fine
+            block_yield_mean: *r.pick(&[0u32, 0, 0, 100_000, 10_000, 1_000]),
         }
     }
 }
